@@ -261,4 +261,56 @@ theorem fields_unrounded_eq_tuple (a : Angle) (n : ℤ) (hn : n < 0) : dms_field
   have : ¬ (n ≥ 0) := by omega
   simp only [this, if_false]
 
+/-- Splitting and rebuilding is the identity: for every Angle value, feeding the pieces of `dms_tuple`
+    (each multiplied by the returned sign, as `Angle(sign*d, sign*m, sign*s)` does) back through
+    `dms2deg` returns exactly the value — the two formulas of the library are inverse to each other,
+    including `(0, -m, s)` for values in (-1, 0) and the all-zero split. -/
+theorem rebuild_from_split (x : ℚ) (h : |x| < 360) :
+    ∃ (d m : ℤ) (s sg : ℚ), deg2dms x = (d, m, s, sg) ∧ dms2deg (sg * d) (sg * m) (sg * s) = x := by
+  obtain ⟨d, m, s, sg, _, _, _, _, hs, _, hsg, d0, d1, m0, m1, s0, s1, hv, _⟩ :=
+    dms_fields_full (L := 360) (le_refl _) (by exact_mod_cast h) 0
+  refine ⟨d, m, s, sg, hs, ?_⟩
+  have hd : (0 : ℚ) ≤ d := by exact_mod_cast d0
+  have hm : (0 : ℚ) ≤ m := by exact_mod_cast m0
+  have hd1 : (d : ℚ) ≤ 359 := by exact_mod_cast (by omega : d ≤ 359)
+  have hm1 : (m : ℚ) ≤ 59 := by exact_mod_cast (by omega : m ≤ 59)
+  set V : ℚ := (d : ℚ) + (m : ℚ) / 60 + s / 3600 with hV
+  have hV0 : 0 ≤ V := by rw [hV]; positivity
+  have hV1 : V < 360 := by rw [hV]; linarith
+  obtain ⟨P, hP, hP0, hP1, k, hk⟩ := reduce_dms_value (sg * d) (sg * m) (sg * s)
+  have habs : |sg * (d : ℚ)| + |sg * (m : ℚ)| / 60 + |sg * s| / 3600 = V := by
+    have e : |sg| = 1 := by rcases hsg with e | e <;> rw [e] <;> norm_num
+    rw [abs_mul, abs_mul, abs_mul, e, abs_of_nonneg hd, abs_of_nonneg hm, abs_of_nonneg s0]; ring
+  rw [habs] at hk
+  have hk0 : k = 0 := by
+    have h1 : (360 : ℚ) * k < 360 := by linarith
+    have h2 : -(360 : ℚ) < 360 * k := by linarith
+    have h3 : (k : ℚ) < 1 := by linarith
+    have h4 : (-1 : ℚ) < k := by linarith
+    have h5 : k < 1 := by exact_mod_cast h3
+    have h6 : -1 < k := by exact_mod_cast h4
+    omega
+  rw [hk0] at hk
+  have hPV : P = V := by push_cast at hk; linarith
+  rw [hP, hPV, ← hv]
+  by_cases hz : V = 0
+  · rw [hz]; ring
+  · congr 1
+    have hVpos : 0 < V := lt_of_le_of_ne hV0 (Ne.symm hz)
+    unfold dmsSign
+    rcases hsg with e | e
+    · subst e
+      rw [if_neg]; push Not
+      exact ⟨by linarith, by linarith, by linarith⟩
+    · subst e
+      rw [if_pos]
+      by_contra hcon
+      push Not at hcon
+      obtain ⟨c1, c2, c3⟩ := hcon
+      have : V = 0 := by rw [hV]; nlinarith
+      exact hz this
+
+example : dms2deg 0 (-5) (-30) = -(5 / 60 + 30 / 3600) ∧ deg2dms (-(5 / 60 + 30 / 3600)) = (0, 5, 30, -1) := by
+  decide +kernel
+
 end Pymeeus.C04
